@@ -21,6 +21,7 @@ itself: a reference map id ↦ content (judge).
 -/
 import Pithos.Util.Proto
 import Pithos.Model.PartStoreToy
+import Pithos.Model.OutboxRead
 open Pithos Pithos.Proto Pithos.Codec Pithos.PartStore
 
 namespace C15
@@ -112,7 +113,86 @@ def showObs : Option (Option Bytes) → String
   | some none => "nf"
   | some (some b) => s!"ok[{b.length}]"
 
+/-! ## statement-level races of outbox reads (harness: c15_race.go; model: `Pithos.OutboxRead`)
+
+    race <fs|sql>
+    ev put <hex|-> | ev del | ev flush
+    rd <tx|notx> begin <none|put|del>     the read's first statement runs now
+    rd end <nf | ok <hex|-> | err>        … the rest of it now
+    rd <tx|notx> plain <nf | ok … | err>
+
+Tie: the model reader is the program of the code (`OnVanished.retry` for both read paths — what
+`Pithos.Gen.OutboxRead` records and `Props/C15.extracted_read_paths_reevaluate` checks on every run).
+Judge: a divided read must return a value the store held at some moment between its first statement and
+its end (the abstract value = newest pending entry, else the inner store); an undivided read the current
+value. -/
+
+def showRaceRes : OutboxRead.Res → String
+  | .found b => s!"ok[{b.length}]"
+  | .notFound => "nf"
+  | .failed => "err"
+
+def judgeRace (lines : List String) : Verdict := Id.run do
+  let parseRes (ts : List String) : Option OutboxRead.Res :=
+    match ts with
+    | ["nf"] => some .notFound
+    | ["err"] => some .failed
+    | ["ok", h] => (unhex h).map .found
+    | _ => none
+  let mut s : OutboxRead.St := {}
+  let mut first : Option OutboxRead.Entry := none
+  let mut during : List (Option Bytes) := []     -- abstract values since the first statement of the open read
+  let mut div : List String := []
+  let mut vio : List (String × String) := []
+  let mut i := 0
+  let mut reads := 0
+  let mut stats : List (String × Nat) := []
+  for l in lines.drop 1 do
+    let ts := tokens l
+    match ts with
+    | ["ev", "put", h] =>
+      let some b := unhex h | return { diverge := ["unparsable-trace:race-put"] }
+      s := s.apply (.put b); during := during ++ [s.abs]
+    | ["ev", "del"] => s := s.apply .del; during := during ++ [s.abs]
+    | ["ev", "flush"] => s := s.apply .flush; during := during ++ [s.abs]
+    | ["rd", _, "begin", saw] =>
+      first := s.lookup
+      during := [s.abs]
+      let msaw := match first with
+        | none => "none"
+        | some e => if e.isPut then "put" else "del"
+      if msaw != saw then div := div ++ [s!"item{i}:first-statement:model={msaw},impl={saw}"]
+      stats := addStats stats [(s!"race_first_{saw}", 1)]
+    | "rd" :: "end" :: r =>
+      let some got := parseRes r | return { diverge := ["unparsable-trace:race-result"] }
+      let m := OutboxRead.rest .retry (OutboxRead.maxRetries - 1) first s
+      if m != got then div := div ++ [s!"item{i}:divided-read:model={showRaceRes m},impl={showRaceRes got}"]
+      if !(during.any fun v => OutboxRead.ofOpt v == got) then
+        vio := vio ++ [("C15.outbox-read-returned-a-value-the-part-never-had-during-the-call", s!"item{i}:{showRaceRes got}")]
+      reads := reads + 1
+      stats := addStats stats [(if during.length > 1 then "race_divided_with_events" else "race_divided_no_events", 1)]
+    | "rd" :: _ :: "plain" :: r =>
+      let some got := parseRes r | return { diverge := ["unparsable-trace:race-result"] }
+      let m := OutboxRead.read .retry s
+      if m != got then div := div ++ [s!"item{i}:read:model={showRaceRes m},impl={showRaceRes got}"]
+      if OutboxRead.ofOpt s.abs != got then
+        vio := vio ++ [("C15.outbox-read-not-the-current-value", s!"item{i}:{showRaceRes got}")]
+      reads := reads + 1
+    | _ => return { diverge := ["unparsable-trace:race-line"] }
+    i := i + 1
+  return {
+    diverge := div.take 5, violations := vio,
+    nontrivial := reads ≥ 2,
+    fingerprint := fpLines lines,
+    stats := addStats stats [("race_cases", 1)],
+    samples := [String.intercalate ";" ((lines.take 8).map fun l => (l.take 40).toString)]
+  }
+
 def judgeCase (_k : Nat) (lines : List String) : Verdict := Id.run do
+  if (lines.head?.map tokens).bind List.head? == some "race" then
+    if let some p := lines.find? (·.startsWith "panic ") then
+      return { violations := [("C15.case-panicked", p)], fingerprint := fpLines lines }
+    return judgeRace lines
   let (base, word) ← match lines.head?.map tokens with
     | some ("stack" :: b :: ws) => pure (b, if ws == ["-"] then [] else ws)
     | _ => return { diverge := ["unparsable-trace:no-stack-line"] }
